@@ -261,3 +261,52 @@ pub fn roundtrip(args: &[String]) -> String {
         (s1 == s2) as u8
     )
 }
+
+// pipeline <text>: parse + infoset + compact print + pretty print, in both DOM views (property C03)
+//   outcome class only: ok | rest | err      (a panic is reported by the dispatcher as `panic`)
+pub fn pipeline(args: &[String]) -> String {
+    use xml_dom::PrettyPrint;
+    let text = args.first().cloned().unwrap_or_default();
+    let mut class = "err";
+    for expanded in [false, true] {
+        match XmlDocument::from_raw_with_context(&text, xml_dom::Context::from_text_expanded(expanded)) {
+            Ok((rest, dom)) => {
+                let s = format!("{}", dom);
+                let mut buf: Vec<u8> = vec![];
+                let _ = dom.pretty(&mut buf);
+                // walk the tree through the DOM API as a caller would
+                let n = count_nodes(&xml_dom::XmlNode::Document(dom.clone()), 0);
+                std::hint::black_box((s.len(), buf.len(), n));
+                class = if rest.is_empty() { "ok" } else { "rest" };
+            }
+            Err(_) => {
+                class = "err";
+            }
+        }
+    }
+    class.to_string()
+}
+
+fn count_nodes(n: &xml_dom::XmlNode, depth: usize) -> usize {
+    use xml_dom::{Node, NodeList};
+    let mut total = 1;
+    let _ = n.node_name();
+    let _ = n.node_value();
+    if let Some(attrs) = n.attributes() {
+        use xml_dom::NamedNodeMap;
+        for i in 0..attrs.length() {
+            if let Some(a) = attrs.item(i) {
+                use xml_dom::Attr;
+                let _ = a.value();
+                total += 1;
+            }
+        }
+    }
+    let kids = n.child_nodes();
+    for i in 0..kids.length() {
+        if let Some(k) = kids.item(i) {
+            total += count_nodes(&k, depth + 1);
+        }
+    }
+    total
+}
